@@ -52,6 +52,8 @@ def scenarios(tier, seed):
                             names="exactkw", hashseed=0))
     for i in range(6 if tier == "quick" else 16):
         out.append(dict(family="roundtrip/concrete-twin", mode="concrete", variant=i, hashseed=i % 2, concrete_only=True))
+    for i in range(2):
+        out.append(dict(family="roundtrip/concrete-twin-uai", mode="concrete_uai", variant=i, hashseed=i % 2, concrete_only=True))
     return out
 
 
@@ -91,9 +93,43 @@ class Tokens:
         return v
 
 
+def run_concrete_uai(desc, M):
+    """UAI text layer on the real float code: probabilities spanning 1e-12 .. 1 (printed in scientific notation) and exact 0/1 must come back
+    exactly.  One parent per node (the parent-order finding for >= 2 parents is recorded separately); positional names var_i."""
+    from pgmpy.factors.discrete import DiscreteFactor, TabularCPD
+    from pgmpy.models import BayesianNetwork, MarkovNetwork
+    from pgmpy.readwrite import UAIReader, UAIWriter
+    M.declare([])
+    tiny = [1e-5, 1e-12, 3.5e-7, 0.0]
+    if desc["variant"] == 0:
+        m = BayesianNetwork([("a", "b"), ("b", "c")])
+        m.add_cpds(TabularCPD("a", 2, [[tiny[0]], [1 - tiny[0]]]),
+                   TabularCPD("b", 3, [[0.3, tiny[1]], [0.7 - tiny[2], 1 - tiny[1]], [tiny[2], 0.0]], ["a"], [2]),
+                   TabularCPD("c", 2, [[1.0, 0.25, tiny[2]], [0.0, 0.75, 1 - tiny[2]]], ["b"], [3]))
+        text = str(UAIWriter(m))
+        r = UAIReader(string=text).get_model()
+        M.check(len(r.nodes()) == 3 and len(r.edges()) == 2, "uai: same number of variables and edges")
+        # positional names: match the tables as a multiset (all three tables are different)
+        got = sorted(tuple(np.asarray(c.get_values(), dtype=float).ravel().tolist()) for c in r.cpds)
+        want = sorted(tuple(np.asarray(c.get_values(), dtype=float).ravel().tolist()) for c in m.cpds)
+        M.check(got == want, "uai: every probability is read back exactly (tiny magnitudes, exact 0/1)", detail=f"wrote {want} read {got}")
+    else:
+        mn = MarkovNetwork([("a", "b"), ("b", "c")])
+        f1 = DiscreteFactor(["a", "b"], [2, 2], [tiny[0], 2.0, 1e-9, 40.0])
+        f2 = DiscreteFactor(["b", "c"], [2, 3], [1.0, tiny[1], 0.0, 5e-8, 3.0, 0.125])
+        mn.add_factors(f1, f2)
+        text = str(UAIWriter(mn))
+        r = UAIReader(string=text).get_model()
+        got = sorted(tuple(np.asarray(f.values, dtype=float).ravel().tolist()) for f in r.get_factors())
+        want = sorted(tuple(np.asarray(f.values, dtype=float).ravel().tolist()) for f in (f1, f2))
+        M.check(got == want, "uai: every factor value of a Markov network is read back exactly (tiny magnitudes)", detail=f"wrote {want} read {got}")
+
+
 def run(desc, M):
     if desc["mode"] == "concrete":
         return run_concrete_twin(desc, M)
+    if desc["mode"] == "concrete_uai":
+        return run_concrete_uai(desc, M)
     from pgmpy.factors.discrete import DiscreteFactor, TabularCPD
     from pgmpy.models import BayesianNetwork, MarkovNetwork
     from pgmpy.readwrite import BIFReader, BIFWriter, UAIReader, UAIWriter, XMLBIFReader, XMLBIFWriter
